@@ -472,6 +472,10 @@ package main
 // a detour - self-ban and return, leave and resubscribe)
 //@   requires [C06] only_owner_wants_O: (asUid in t.perUser) && !t.perUser[asUid].deleted && hasO(t.perUser[asUid].modeWant) ==> t.owner == asUid
 // (channel readers excepted: their requested mode comes back from the store as it was written, within JRP)
+// (C06: "ownership moves only when the current owner grants it": once ownership has moved, no offer made by the previous
+// owner is left standing - otherwise a third subscriber could later take ownership from an owner who never offered it.
+// Known finding: the transfer strips the previous owner only.)
+//@   ensures [C06] no_stale_offers_after_transfer: err == nil && t.owner != old(t.owner) ==> (forall u types.Uid :: (u in t.perUser) && u != t.owner ==> !hasO(t.perUser[u].modeGiven))
 //@   ensures [C06] effective_owner_is_the_owner: err == nil && !asChan && (asUid in t.perUser) && !t.perUser[asUid].deleted && hasO(t.perUser[asUid].modeWant) ==> t.owner == asUid
 //@   ensures [C06] transfer: t.owner != old(t.owner) ==> t.owner == asUid && old(hasO(t.perUser[asUid].modeGiven)) && ((asUid in t.perUser) ==> hasO(t.perUser[asUid].modeWant)) && ((old(t.owner) in t.perUser) ==> !hasO(t.perUser[old(t.owner)].modeGiven) && !hasO(t.perUser[old(t.owner)].modeWant))
 //@   ensures [C07] others_untouched: forall u types.Uid :: u != asUid && u != old(t.owner) ==> (u in t.perUser) == old(u in t.perUser) && ((u in t.perUser) ==> t.perUser[u].modeWant == old(t.perUser[u].modeWant) && t.perUser[u].modeGiven == old(t.perUser[u].modeGiven))
